@@ -54,7 +54,7 @@ SUBS = [
     ('R10', r'return\s+data\(\)\[(\w+)\];', r'return E_ref(SV_data(self), \1);'),
     ('R12', r'new\s*\((\w+)\s*\+\s*(\w+)\)\s*T\(std::move\((\w+)\[(\w+)\]\)\);', r'E_construct(\1, \2, E_move(\3, \4));'),
     ('R12', r'new\s*\((\w+)\s*\+\s*(\w+)\)\s*T\(\);', r'E_construct(\1, \2, T_DEFAULT);'),
-    ('R12', r'new\s*\((\w+)\s*\+\s*(\w+)\)\s*T\(value\);', r'E_construct(\1, \2, value);'),
+    ('R12', r'new\s*\((\w+)\s*\+\s*(\w+)\)\s*T\(value\);', r'E_construct(\1, \2, ARG(value));   /* const T& value: may refer to an element of this vector */'),
     ('R12', r'(\w+)\[([^\]]+)\]\.~T\(\);', r'E_destroy(\1, \2);'),
     ('R12', r'(\w+)\[(\w+)\]\s*=\s*std::move\((\w+)\[([^\]]+)\]\);', r'E_assign(\1, \2, E_move(\3, \4));'),
     ('R10', r'return\s+(\w+)\[(\w+)\];', r'return E_ref(\1, \2);'),
